@@ -7,6 +7,8 @@ from contracts.index import PROPS
 
 TECH = "contract-based deductive verification: sidecar contracts on the real functions, VCs generated from /repo's AST by symbolic execution, discharged by z3/cvc5; bounded run-time contract checks reported separately"
 TEXT = {
+ "C03": ("proof", "Fraction, Dimensions and Atom product/quotient proved for ALL integer exponents and magnitudes (exact rational value, component-wise dimension sums, exponent sums/differences with fresh result dicts). The parser itself (AtomParser, UnitSolver, BaseUnits.__init__, get_unit_base) is executed by the interpreter on every expression of an enumerated grammar (every table symbol x admitted prefixes incl. 'da' x exponent shapes, 20 compound expressions with numeric factors and parentheses, render/parse round trip, 28 ill-formed strings) against factor and dimension vector computed from the table rows -- reported as bounded_structure. Uniqueness of prefixed spellings by complete evaluation of the real check on the real tables. Bounded stand-in: random expressions over the whole grammar and single-character corruptions on the real classes.",
+         "regexes of AtomParser run in CPython on concrete strings only (no all-strings proof of the parser); tables read from settings.py on every run"),
  "C04": ("proof", "For every enumerated pair of units of the published tables (all same-dimension pairs in the thorough tier, a seeded sample in quick) and for ALL values x: value()/to() return x*f(u)/f(v) with f read independently from the table rows, reciprocal-dimension pairs convert by the reciprocal, number->rad is unchanged, other pairs raise and leave the quantity unchanged, value() writes nothing, to() writes only self.magnitude/self.baseunits; round trip / intermediate-unit / reciprocal-twice as real-arithmetic lemmas. Bounded stand-in: float rounding (8 ulp), arrays, lists, Decimal, repeated read-outs.",
          "floats as reals; unit structure enumerated from the tables (not symbolic); numpy arrays only in the bounded stand-in"),
  "C05": ("proof", "Temperature: all 6x6 pairs of K, kK, mK, Cel, degF, degR for all x against the standard affine scales written in the contract. Logarithmic: every level unit (B-family, 11 units) <-> its linear unit with prefixes on both sides, B/Np <-> PR/AR, B<->Np, same-unit identities, level sums/differences incl. p+p, for all x, against k*log10(X/Xref) written from the property; inverses as lemmas over uninterpreted log10/pow10/ln/exp with the inverse axioms.",
